@@ -14,6 +14,8 @@ import (
 	"fmt"
 	"runtime"
 	"strings"
+
+	"github.com/flowmatters/openwater-core/sim"
 )
 
 func init() {
@@ -48,6 +50,16 @@ func oracleWP(c *Ctx, id int, body, impl string) {
 }
 
 func genWP(c *Ctx) {
+	if len(modelsArg(c)) == 0 {
+		// every CATALOGUE model that has a case generator (generator variants such as "GR4J#stiff" are not catalogue keys)
+		var ms []string
+		for name := range modelGens {
+			if _, ok := sim.Catalog[name]; ok {
+				ms = append(ms, name)
+			}
+		}
+		c.Args = append(c.Args, "models="+strings.Join(sortedStrings(ms), ","))
+	}
 	genW(c)
 	c.Stats.Rule = "every W case executed at GOMAXPROCS 1, 2, 4, 16 in one worker; all four canonical results must be identical and equal to the single-cell runs. " + c.Stats.Rule
 }
